@@ -20,6 +20,7 @@ OVERLAY = {
     HS + "/zz_c19_obj_verif_test.go": "harness/overlay/httpauth/c19_obj_verif_test.go",
     HS + "/zz_c19_dflt_verif_test.go": "harness/overlay/httpauth/c19_dflt_verif_test.go",
     HS + "/zz_c19_swap_verif_test.go": "harness/overlay/httpauth/c19_swap_verif_test.go",
+    HS + "/zz_c19_cache_verif_test.go": "harness/overlay/httpauth/c19_cache_verif_test.go",
     HS + "/zz_c19_e2e_verif_test.go": "harness/overlay/httpauth/c19_e2e_verif_test.go",
     HS + "/zz_c19_hook_verif.go": "harness/overlay/httpauth/c19_hook_verif.go",
 }
@@ -65,7 +66,7 @@ def warm(ctx):
         ctx.obligations.append(("harness:compile", False, out[-1500:]))
 
 
-KIND = {1: "genDataToSign", 2: "header parser", 3: "request at a server", 4: "client handshake", 5: "AuthenticatedDo against a scripted server"}
+KIND = {1: "genDataToSign", 2: "header parser", 3: "request at a server", 4: "client handshake", 5: "AuthenticatedDo against a scripted server", 7: "history of AuthenticatedDo calls (token cache)"}
 
 
 def describe(t):
@@ -142,6 +143,8 @@ def reported_id(t):
                 return True
             p = skip_ohdr(t, p + 5)
         return False
+    if t[0] == 7:
+        return True
     if t[0] == 5:
         p = 4 + t[3]
         n = t[p]; p += 1
@@ -170,6 +173,9 @@ def what(tag, toks, d):
         return "server reported peer id %s without a proof in the request (diag %s)" % (d[2] if len(d) > 2 else "?", d)
     if toks[0] == 4:
         return "client reported a server id that no received signature proves (step %s, diag %s)" % (d[2] if len(d) > 2 else "?", d)
+    if toks[0] == 7:
+        return "history of AuthenticatedDo calls: call %s returned server id %s that the handshake behind the token in use / this call does not prove (diag %s)" % (
+            d[2] if len(d) > 2 else "?", d[3] if len(d) > 3 else "?", d)
     if toks[0] == 5:
         return "AuthenticatedDo returned server id %s that no response proves (diag %s)" % (d[2] if len(d) > 2 else "?", d)
     return "diag %s" % d
@@ -210,6 +216,6 @@ if __name__ == "__main__":
              "client (kind 4) and 60 to the real ClientPeerIDAuth.AuthenticatedDo over HTTP (kind 5); 2 real-client/real-server runs over HTTP "
              "with stored and expired tokens; byte-level cases for genDataToSign (kind 1) and parsePeerIDAuthSchemeParams (kind 2). Every "
              "answer is compared with the Coq model (conform_case) and judged by the property monitor (monitor_case: a reported id needs a proof in this request; an emitted token must name a peer this request proves). A case is non-trivial "
-             "when an identity was reported (server accept / client reports a server id); distinct = distinct case lines among those.",
+             "(kind 7: 36 histories per round of AuthenticatedDo calls on one ClientPeerIDAuth whose hostname moves between servers: token accepted / rejected / failed re-authentication / other statuses / random). A case is non-trivial when an identity was reported (server accept / client reports a server id); distinct = distinct case lines among those.",
         describe=describe, key=key, what=what, crosscheck=60,
     ))
